@@ -24,7 +24,8 @@ PROPS = {
              "plus values padded to 20300..20470 characters so replacements reach the 20 kB limit; HOME set/unset/empty, 7..12 built-ins; "
              "the argument is an exact CONFIG_BUFF-byte simulated block; oracle = reference expander written from the stated rules (value checked unless a don't-care construct occurs), NUL-termination and length, "
              "and a second execution of the whole plan under different heap and stack garbage that must give byte-identical results; distinct = distinct trace hash; non-trivial = >= 3 ops",
-             probes=["value_checked", "value_dont_care", "dollar_mid_line", "backslash_at_end", "unterminated_brace", "nested_call_depth3", "result_hits_limit", "tilde_inside_quotes", "big_directory", "dirscan_listing_modelled", "dirscan_listing_over_limit", "cut_result_is_a_prefix"]),
+             probes=["value_checked", "value_dont_care", "dollar_mid_line", "backslash_at_end", "unterminated_brace", "nested_call_depth3", "result_hits_limit", "tilde_inside_quotes", "big_directory", "dirscan_listing_modelled", "dirscan_listing_over_limit", "cut_result_is_a_prefix",
+                     "random_picked_another_word", "dirscan_no_directory"]),
     "C11": P(["asan", "asanz"], 30, 900,
              "plans = 1..4 init/register/parse/free cycles; files are arbitrary byte strings or metacharacter-rich config text (NULs, lines of 20470..20482 and 41000 bytes, missing final newline, "
              "300 unmatched begin lines, empty file, bad magic, %include/%put/%get/%random/%dirscan (one run in ten over a directory whose listing is 20474..20486 or 41000 bytes long)/$VAR/~ and, in a quarter of the runs, %exec/backquote/%preproc), 0..200 contexts, 7..13 built-ins, "
